@@ -1,4 +1,9 @@
 import FFVerif.Props.C20
+import FFVerif.Pins.pinParseArgs
+import FFVerif.Pins.pinParseHamiltonian
+import FFVerif.Pins.pinParseOperators
+import FFVerif.Pins.pinParseSpectrum
+import FFVerif.Pins.pinGetIndices
 #print axioms FFVerif.C20.parse_hamiltonian_valid_never_rejected
 #print axioms FFVerif.C20.parse_hamiltonian_rejects_iff
 #print axioms FFVerif.C20.parse_hamiltonian_rejection_explained
@@ -45,3 +50,8 @@ import FFVerif.Props.C20
 #print axioms FFVerif.C20.deriv_shape_rejects_iff
 #print axioms FFVerif.C20.cumulant_rejects_iff
 #print axioms FFVerif.C20.convergence_rejects_iff
+#print axioms FFVerif.Pins.pinParseArgs
+#print axioms FFVerif.Pins.pinParseHamiltonian
+#print axioms FFVerif.Pins.pinParseOperators
+#print axioms FFVerif.Pins.pinParseSpectrum
+#print axioms FFVerif.Pins.pinGetIndices
